@@ -18,12 +18,12 @@ CONSTANTS Props, KnownIds
 Rec == ndJsonDeserialize(IOEnv.TRACE)
 N == Len(Rec)
 
-VARIABLES l, cur, lay, keys, st, phys, out, mon, viol, first, dead, flushed
-vars == <<l, cur, lay, keys, st, phys, out, mon, viol, first, dead, flushed>>
+VARIABLES l, cur, lay, lc, keys, st, phys, out, mon, viol, first, dead, flushed
+vars == <<l, cur, lay, lc, keys, st, phys, out, mon, viol, first, dead, flushed>>
 
 \* registers: 1 walks, 2 steps judged, 3 drifts, 4 steps with a mapping fired, 5 release_all steps
 Bump(i) == TLCSet(i, TLCGet(i) + 1)
-Init == /\ l = 1 /\ cur = "" /\ lay = <<>> /\ keys = {} /\ st = InitState /\ phys = {} /\ out = {} /\ mon = MP!InitMon
+Init == /\ l = 1 /\ cur = "" /\ lay = <<>> /\ lc = MP!LayoutConsts(<<>>) /\ keys = {} /\ st = InitState /\ phys = {} /\ out = {} /\ mon = MP!InitMon
         /\ viol = {} /\ first = 0 /\ dead = FALSE /\ flushed = FALSE
         /\ \A i \in 1..5: TLCSet(i, 0)
 
@@ -35,13 +35,13 @@ ConsumeLine ==
   /\ LET r == Rec[l] IN
      IF r.c = "reset"
      THEN /\ Report(cur, viol, first) /\ Bump(1)
-          /\ cur' = r.id /\ lay' = r.layout /\ keys' = MP!SeqSet(r.keys) /\ st' = InitState /\ phys' = {} /\ out' = {} /\ mon' = MP!InitMon
+          /\ cur' = r.id /\ lay' = r.layout /\ lc' = MP!LayoutConsts(r.layout) /\ keys' = MP!SeqSet(r.keys) /\ st' = InitState /\ phys' = {} /\ out' = {} /\ mon' = MP!InitMon
           /\ viol' = {} /\ first' = 0 /\ dead' = FALSE
-     ELSE IF dead THEN UNCHANGED <<cur, lay, keys, st, phys, out, mon, viol, first, dead>>     \* after a panic nothing more is judged
+     ELSE IF dead THEN UNCHANGED <<cur, lay, lc, keys, st, phys, out, mon, viol, first, dead>>     \* after a panic nothing more is judged
      ELSE IF r.panic # ""
      THEN /\ viol' = viol \cup (IF "C14" \in Props THEN {"C14-panic-in-walk"} ELSE {}) /\ dead' = TRUE
           /\ first' = (IF first = 0 /\ "C14" \in Props THEN l ELSE first)
-          /\ UNCHANGED <<cur, lay, keys, st, phys, out, mon>>
+          /\ UNCHANGED <<cur, lay, lc, keys, st, phys, out, mon>>
      ELSE IF r.e.t = "RA"
      THEN LET c == MP!CheckReleaseAll(Props, out, r.st, r.ev)
               sp == ReleaseAll(lay, st) IN
@@ -49,19 +49,19 @@ ConsumeLine ==
           /\ st' = r.st /\ out' = MP!OutAfter(out, r.ev) /\ phys' = {} /\ mon' = MP!InitMon
           /\ Bump(2) /\ Bump(5)
           /\ (~(sp.st = r.st /\ sp.ev = r.ev) => /\ Bump(3) /\ (TLCGet(3) <= 3 => PrintT(<<"DRIFT", cur, l, "release_all", [impl |-> r.ev, spec |-> sp.ev]>>)))
-          /\ UNCHANGED <<cur, lay, keys, dead>>
-     ELSE LET c == MP!Check(Props, lay, keys, st, phys, out, mon, r.e, r.st, r.ev, r.rep)
+          /\ UNCHANGED <<cur, lay, lc, keys, dead>>
+     ELSE LET c == MP!CheckC(Props, lay, lc, keys, st, phys, out, mon, r.e, r.st, r.ev, r.rep)
               sp == Step(lay, st, r.e) IN
           /\ viol' = viol \cup c.v /\ first' = (IF first = 0 /\ c.v \ KnownIds # {} THEN l ELSE first)
           /\ st' = r.st /\ out' = MP!OutAfter(out, r.ev) /\ phys' = MP!PhysPost(phys, r.e)
-          /\ mon' = MP!MonNext(Props, lay, st, phys, mon, r.e, r.st)
+          /\ mon' = MP!MonNextC(Props, lay, lc.hasAbs, st, phys, mon, r.e, r.st)
           /\ Bump(2) /\ (MP!FiredSeq(st, r.e, r.st) # <<>> => Bump(4))
           /\ (~(sp.st = r.st /\ sp.ev = r.ev /\ sp.rep = r.rep) =>
                 /\ Bump(3) /\ (TLCGet(3) <= 3 => PrintT(<<"DRIFT", cur, l, r.e, [impl |-> [ev |-> r.ev, rep |-> r.rep], spec |-> [ev |-> sp.ev, rep |-> sp.rep]]>>)))
-          /\ UNCHANGED <<cur, lay, keys, dead>>
+          /\ UNCHANGED <<cur, lay, lc, keys, dead>>
 
 Flush == /\ l = N + 1 /\ ~flushed /\ flushed' = TRUE /\ Report(cur, viol, first)
-         /\ UNCHANGED <<l, cur, lay, keys, st, phys, out, mon, viol, first, dead>>
+         /\ UNCHANGED <<l, cur, lay, lc, keys, st, phys, out, mon, viol, first, dead>>
 Next == ConsumeLine \/ Flush
 Spec == Init /\ [][Next]_vars
 Accepted == PrintT(<<"ACCEPTED", TLCGet("stats").diameter - 2, N, [i \in 1..5 |-> TLCGet(i)]>>)
